@@ -8,6 +8,8 @@ import (
 	"fmt"
 	"time"
 
+	"github.com/patrickmn/go-cache"
+
 	"github.com/scionproto/scion/pkg/scrypto/cppki"
 	"github.com/scionproto/scion/private/trust"
 
@@ -96,7 +98,30 @@ func signerMode(scn, out string) {
 					vother = 1
 				}
 			}
-			w.Emit(vt.M{"ev": "signer", "key": key, "chain": cw.Ident(s.Chain), "ingrace": s.InGrace,
+			// a verifier with its (real) cache meets the signer before the chain is available to its trust
+			// engine, then the chain arrives: the next message must verify
+			vlate := -1
+			if serr == nil && vok == 1 && (nsig <= 40 || (int64(nsig)+vt.Seed())%23 == 0) {
+				sq2 := newTrustDB()
+				for _, t := range trcsOf(cw, tlCache, c.TL) {
+					if _, err := sq2.InsertTRC(ctx, t); err != nil {
+						vt.Fatal("insert TRC: %v", err)
+					}
+				}
+				prov2 := trust.FetchingProvider{DB: sq2, Recurser: trust.LocalOnlyRecurser{}, Fetcher: &chainFetcher{}, Router: fixedRouter{}}
+				late := trust.Verifier{BoundIA: pki.ChainIA(2), Engine: prov2, Cache: cache.New(time.Minute, time.Minute)}
+				if _, err := late.Verify(ctx, sm, []byte("associated")); err == nil {
+					vlate = 2 // verified without a chain in the store
+				} else {
+					if _, err := sq2.InsertChain(ctx, s.Chain); err != nil {
+						vt.Fatal("insert chain: %v", err)
+					}
+					_, err := late.Verify(ctx, sm, []byte("associated"))
+					vlate = b2i(err == nil)
+				}
+				sq2.Close()
+			}
+			w.Emit(vt.M{"ev": "signer", "vlate": vlate, "key": key, "chain": cw.Ident(s.Chain), "ingrace": s.InGrace,
 				"exp": absTime(s.Expiration), "trcserial": int(s.TRCID.Serial), "signok": b2i(serr == nil),
 				"verifyok": vok, "verifyother": vother, "subjectok": b2i(s.IA == pki.ChainIA(2))})
 			if !directDone && serr == nil {
